@@ -15,7 +15,7 @@ const OPSETS: &[&str] = &["marker-only", "empty", "path+paint", "text", "colors+
 const BOX: &[&str] = &["letter", "absent", "non-integer", "negative-origin", "tiny-and-huge-coordinates"];
 const OPTBOX: &[&str] = &["absent", "present", "non-integer", "tiny-and-huge-coordinates"];
 const ROTATE: &[&str] = &["0", "90", "-90", "270"];
-const OTHER: &[&str] = &["none", "int", "nested-dict", "name", "string+array", "tiny-real"];
+const OTHER: &[&str] = &["none", "int", "nested-dict", "name", "string+array", "tiny-real", "names-with-number-signs-and-delimiters"];
 const RES: &[&str] = &["none", "font", "ext-gstate", "both", "colour-spaces"];
 const INFO: &[&str] = &["none", "title-only", "all-fields"];
 const PRIM: &[&str] = &["none", "metadata-dict"];
@@ -102,6 +102,12 @@ pub fn builder_case(ch: &mut Chooser, t: &mut Tally) {
             }
             5 => {
                 other.insert("UserUnit", Primitive::Number(0.000075));
+            }
+            6 => {
+                // names are arbitrary byte sequences: number signs (also followed by two hex digits or by nothing),
+                // delimiters, white space and non-ASCII characters must come back as they were given
+                other.insert("Rev#41", Primitive::Name("a#b/c(d)%e f<g>[h]{i}\u{7f}\u{e9}#".into()));
+                other.insert("#", Primitive::Array(vec![Primitive::Name("#23".into()), Primitive::Name("##".into()), Primitive::Name("Layer#2A".into()), Primitive::Name("".into())]));
             }
             4 => {
                 other.insert("Custom", Primitive::Array(vec![Primitive::String(PdfString::new(b"a (string) \\ with \r specials"[..].into())), Primitive::Boolean(true)]));
